@@ -1,5 +1,8 @@
 """C10 -- device-side sync failures surface as the documented exception with the reason."""
 import io
+import os
+import shutil
+import tempfile
 import struct
 
 from vlib import gen, scen, wire
@@ -198,13 +201,23 @@ def run_case(case):
             elif len(reply) > 400 and plan.split_mode == "bytes1":
                 plan.split_mode = "random"
             dest = io.BytesIO()
+            ptmp = None
+            if (size + recs + len(reason)) % 3 == 0:
+                # the destination is a file name: the library opens (and closes) the file itself
+                ptmp = tempfile.mkdtemp(prefix="verif-c10p-", dir=os.environ.get("VERIF_TMP", "/tmp"))
+                dest = os.path.join(ptmp, "pulled")
+                stats["pull_fails_to_path"] = stats.get("pull_fails_to_path", 0) + 1
             cb = scen.make_callback(case["impl"], "ok", []) if rng.random() < 0.3 else None
             plan.stats[b"/gone"] = (0o100644, size, 3)
-            out = sess.call("pull", "/gone", dest, progress_callback=cb, **tkw)
+            try:
+                out = sess.call("pull", "/gone", dest, progress_callback=cb, **tkw)
+            finally:
+                if ptmp:
+                    shutil.rmtree(ptmp, ignore_errors=True)
             stats["pull_fails"] += 1
-            where = "pull: device sends %d DATA records then FAIL(%r) split=%s" % (recs, reason[:30], plan.split_mode)
+            where = "pull%s: device sends %d DATA records then FAIL(%r) split=%s" % (" to a path" if ptmp else "", recs, reason[:30], plan.split_mode)
             if out.ok:
-                viol.append({"mechanism": "returned-normally", "detail": where + ": pull returned as if it had succeeded (%d bytes written)" % len(dest.getvalue())})
+                viol.append({"mechanism": "returned-normally", "detail": where + ": pull returned as if it had succeeded"})
             elif out.exc_name() in ("AdbTimeoutError", "TcpTimeoutException"):
                 viol.append({"mechanism": "timeout-instead-of-failure", "detail": where + ": raised %s" % out.brief(100)})
             elif out.exc_name() != "AdbCommandFailureException":
